@@ -414,6 +414,12 @@ def resolveAll : List Ans → (lastNoRec : Option Ans) → Ans
     else if !a.err4 || !a.err6 then resolveAll rest (some a)
     else resolveAll rest nr
 
+/-- the positive outcome of a probe: `ClearAll()` first when the filter has taken
+`realDomainSetCapacity` names (every earlier name is dropped and will be probed again), then add. -/
+def addVerified (w : World) (d : Str) : World :=
+  if w.realAdds ≥ realCap then { w with realSet := [d], realAdds := 1, neg := w.neg.del d }
+  else { w with realSet := d :: w.realSet, realAdds := w.realAdds + 1, neg := w.neg.del d }
+
 /-- `probeAndUpdateRealDomain(domain)`; `answers` has one entry per bootstrap resolver. -/
 def probe (w : World) (d : Str) (answers : List Ans) : World :=
   let (w, known, _) := lookupReal w d
@@ -423,10 +429,7 @@ def probe (w : World) (d : Str) (answers : List Ans) : World :=
     let r := resolveAll (answers.take w.nboot) none
     if r.err4 && r.err6 then w                     -- probe failed for both families
     else if !r.ip4 && !r.ip6 then { w with neg := w.neg.put d (w.now + w.negTtl) }
-    else if w.realAdds ≥ realCap then
-      -- `ClearAll()` first: every earlier name is dropped (and will be probed again)
-      { w with realSet := [d], realAdds := 1, neg := w.neg.del d }
-    else { w with realSet := d :: w.realSet, realAdds := w.realAdds + 1, neg := w.neg.del d }
+    else addVerified w d
 
 /-- how many times the probe calls `resolveIp46ForRealDomainProbe` (observable in the harness). -/
 def probeCalls (w : World) (answers : List Ans) : Nat :=
